@@ -222,14 +222,53 @@ def real_trace(limits, ops):
 
 
 # ----------------------------------------------------------------------------- end to end
-def e2e_pair(limits_c, limits_s):
+class EngineLog:
+    """per transport: the order of NEWKEYS sent ("o") / received ("i") / `_auth_trigger` ("a"), and how often a
+    compressor / decompressor was installed — observed from outside (instance attributes)"""
+
+    def __init__(self, t):
+        self.ops, self.installs_out, self.installs_in = [], 0, 0
+        pk = t.packetizer
+        so, si, at = pk.set_outbound_compressor, pk.set_inbound_compressor, t._auth_trigger
+        ao, ai = t._activate_outbound, t._activate_inbound
+
+        def set_out(c):
+            self.installs_out += 1
+            return so(c)
+
+        def set_in(c):
+            self.installs_in += 1
+            return si(c)
+
+        def auth_trigger():
+            self.ops.append("a")
+            return at()
+
+        def act_out():
+            self.ops.append("o")
+            return ao()
+
+        def act_in():
+            self.ops.append("i")
+            return ai()
+
+        pk.set_outbound_compressor, pk.set_inbound_compressor = set_out, set_in
+        t._auth_trigger, t._activate_outbound, t._activate_inbound = auth_trigger, act_out, act_in
+
+
+def e2e_pair(limits_c, limits_s, compression=None):
     from paramiko import Transport
     from tests._loop import LoopSocket
 
     a, b = LoopSocket(), LoopSocket()
     a.link(b)
-    tc = Transport(a, packetizer_class=scaled_class(*limits_c) if limits_c else None)
-    ts = Transport(b, packetizer_class=scaled_class(*limits_s) if limits_s else None)
+    da = {"compression": ["zlib@openssh.com", "none"]} if compression == "zlib" else None
+    tc = Transport(a, packetizer_class=scaled_class(*limits_c) if limits_c else None, disabled_algorithms=da)
+    ts = Transport(b, packetizer_class=scaled_class(*limits_s) if limits_s else None, disabled_algorithms=da)
+    if compression:
+        tc.use_compression(True)
+        ts.use_compression(True)
+    tc.pv_engines, ts.pv_engines = EngineLog(tc), EngineLog(ts)
     ts.add_server_key(L.host_key())
     taps = {"client": L.Tap(tc), "server": L.Tap(ts)}
     ev = threading.Event()
@@ -255,13 +294,21 @@ def drain(ch, n, out):
     out.append(got)
 
 
-def traffic_case(ctx, pattern, rng):
+COMP_MODEL = {"none": "none", "zlib": "zlib", "zlib@openssh.com": "delayed"}
+
+
+def traffic_case(ctx, pattern, rng, compression=None, comp_cases=None):
     """one pattern with thresholds scaled so that several rekeys happen; overflow allowance >= window + 2*REKEY"""
     rp, rb = rng.choice([(60, 10 ** 9), (10 ** 9, 40000), (90, 60000)])
+    if compression:
+        rp, rb = rng.choice([(60, 10 ** 9), (90, 10 ** 9)])     # compressed volume is small: count packets
     window = 2 ** 21  # paramiko's default window: what a compliant peer may legitimately have in flight
     limits = (rp, rb, 10 ** 9, window + 2 * min(rb, 10 ** 8) + 10 ** 6)
-    tc, ts, taps = e2e_pair(limits, limits if pattern != "one-sided-thresholds" else None)
-    case = {"pattern": pattern, "limits": list(limits)}
+    tc, ts, taps = e2e_pair(limits, limits if pattern != "one-sided-thresholds" else None, compression)
+    case = {"pattern": pattern, "limits": list(limits), "compression": compression or "none"}
+    if compression and (tc.local_compression != compression or ts.local_compression != compression):
+        ctx.broken.append({"kind": "harness", "what": "compression negotiation",
+                           "detail": "wanted %s got %s/%s" % (compression, tc.local_compression, ts.local_compression)})
     try:
         ch = tc.open_session(timeout=30)
         sch = ts.accept(30)
@@ -269,6 +316,11 @@ def traffic_case(ctx, pattern, rng):
             raise InfraError("accept timed out")
         n = 200000 if ctx.thorough else 70000
         up, down = rng.randbytes(n), rng.randbytes(n)
+        if compression:
+            # compressible but not trivial: the compressor's history matters for every later packet
+            words = [rng.randbytes(rng.randrange(3, 12)) for _ in range(40)]
+            up = b"".join(rng.choice(words) for _ in range(n // 6))[:n].ljust(n, b".")
+            down = b"".join(rng.choice(words) for _ in range(n // 6))[:n].ljust(n, b",")
         got_up, got_down = [], []
         threads = []
         if pattern in ("send-heavy", "interleaved", "one-sided-thresholds"):
@@ -345,7 +397,10 @@ def traffic_case(ctx, pattern, rng):
                 ctx.fail("threshold-crossed-without-rekey:" + pattern, case, "%d bytes sent, REKEY_BYTES=%d" % (n, rb))
             if rb < 10 ** 8 and n >= rb and nk < 1 and pattern == "receive-heavy":
                 ctx.fail("threshold-crossed-without-rekey:" + pattern, case, "%d bytes received, REKEY_BYTES=%d" % (n, rb))
-        # per key epoch: the first packet under new keys is never a connection-layer one sent before NEWKEYS …
+        if comp_cases is not None:
+            for name, t in (("client", tc), ("server", ts)):
+                comp_cases.append((COMP_MODEL[t.local_compression], list(t.pv_engines.ops),
+                                   t.pv_engines.installs_out, t.pv_engines.installs_in, dict(case, peer=name)))
         ctx.sample(case)
     finally:
         tc.close()
@@ -467,10 +522,24 @@ def run(ctx):
         fragmented_read_message(ctx, rng)
 
     patterns = ["send-heavy", "receive-heavy", "interleaved", "idle", "one-sided-thresholds"]
+    comp_cases = []
     for p in patterns * (2 if ctx.thorough else 1):
         ctx.case(("e2e", p), p != "idle")
         ctx.dist("pattern:" + p)
-        traffic_case(ctx, p, rng)
+        traffic_case(ctx, p, rng, None, comp_cases)
+    # the same with compression negotiated, both flavours: the compressed stream must survive every re-exchange
+    for comp in ("zlib", "zlib@openssh.com"):
+        for p in (["interleaved", "send-heavy", "receive-heavy"] if ctx.thorough else ["interleaved", "send-heavy"]):
+            ctx.case(("e2e", p, comp), True)
+            ctx.dist("pattern:%s+%s" % (p, comp))
+            traffic_case(ctx, p, rng, comp, comp_cases)
+    creqs = ["comp %s %s" % (c, " ".join(ops)) for c, ops, _o, _i, _case in comp_cases]
+    crep = ctx.driver("C10", creqs)
+    if crep is not None:
+        for rq, rp_, (c, ops, io, ii, case) in zip(creqs, crep, comp_cases):
+            f = rp_.split(" ")
+            if [int(f[0]), int(f[1])] != [io, ii]:
+                ctx.disagree("compressor installs per key switch", dict(case, request=rq), [int(f[0]), int(f[1])], [io, ii])
     for by in ("packets", "bytes"):
         ctx.case(("e2e-ignoring", by), True)
         ignoring_peer_case(ctx, rng, by)
@@ -485,7 +554,10 @@ META = {
               "allowance unless the overflow error is raised, and a peer that only keeps sending is dropped within "
               "the packet allowance and within the byte allowance; the loop top turns a pending request into a "
               "KEXINIT and in_kex is not cleared while a request is pending. The model is tied to Packetizer by "
-              "per-operation differential runs on a scaled subclass (flags, exception, all private counters)."),
+              "per-operation differential runs on a scaled subclass (flags, exception, all private counters). 'Traffic "
+              "continues intact' also covers the compression engines: proved that compressor and decompressor are "
+              "re-created for every key set (both flavours) and are in step on both ends; tied by counting the "
+              "set_*_compressor calls per NEWKEYS in end-to-end runs with zlib and zlib@openssh.com across rekeys."),
     "note": ("Also proved and tied (read_all differential, fragmented read_message oracle): NeedRekeyException leaves the "
              "read loop only with no byte of the packet consumed. Trusted: Lean kernel + 3 axioms; the harness. The transport-level rules (loop top, in_kex) are modelled "
              "from Transport.run/_activate_outbound/_parse_newkeys and exercised only end to end (oracle), not by "
